@@ -287,6 +287,11 @@ def init_assigned_attrs(c: type) -> Dict[str, type]:
     """Instance attributes assigned as `self.x = ...` in __init__ methods along the MRO -> defining class."""
     out: Dict[str, type] = {}
     for k in reversed(c.__mro__):
+        if is_tealer_class(k) and is_dataclass(k):
+            # a dataclass: the generated __init__ assigns every field (used when an instance is modelled as a heap object)
+            for f in dc_fields(k):
+                out.setdefault(f.name, k)
+            continue
         if not is_tealer_class(k) or "__init__" not in vars(k):
             continue
         try:
